@@ -298,6 +298,7 @@ def src(v, depth=0):
     try:
         if cn == "Angle": return "Angle(%s)" % fsrc(float(d["_deg"]))
         if cn == "Epoch": return "Epoch(%s)" % fsrc(float(d["_jde"]))
+        if cn in ("Interpolation", "CurveFitting") and not d["_x"] and not d["_y"]: return cn + "()"
         if cn == "Interpolation": return "Interpolation(%s, %s)" % (src(d["_x"], depth + 1), src(d["_y"], depth + 1))
         if cn == "CurveFitting": return "CurveFitting(%s, %s)" % (src(d["_x"], depth + 1), src(d["_y"], depth + 1))
         if cn == "Ellipsoid": return "Ellipsoid(%s, %s, %s)" % (fsrc(d["_a"]), fsrc(d["_f"]), fsrc(d["_omega"]))
@@ -854,6 +855,27 @@ EXPLICIT = [
      ["1.4", "0.5", "Angle(10.0)", "Angle(20.0)", "Angle(30.0)", "Epoch(2448192.5)"], {}),
     ("Sun.__init__", None, [], {}),
     ("base.machine_accuracy", None, [], {}),
+    # JupiterMoons: coordinate forms of correct_rectangular_positions, keywords, the check_* signatures
+    ("JupiterMoons.correct_rectangular_positions", None, ["5.929892730360271", "1", "5.6611211815432645", "(-3.4489935969836503, 0.21361563816963675, -4.818966623735296)"], {}),
+    ("JupiterMoons.correct_rectangular_positions", None, ["5.929892730360271", "1", "5.6611211815432645", "[-3.4489935969836503, 0.21361563816963675, -4.818966623735296]"], {}),
+    ("JupiterMoons.correct_rectangular_positions", None, ["5.929892730360271", "3", "5.6611211815432645", "3.0720", "1.0289", "-5.2"], {}),
+    ("JupiterMoons.correct_rectangular_positions", None, ["5.929892730360271", "4", "5.6611211815432645", "-4.2", "-0.5"], {}),
+    ("JupiterMoons.rectangular_positions_jovian_equatorial", None, ["Epoch(2448972.500685)"], {"solar": "True"}),
+    ("JupiterMoons.rectangular_positions_jovian_equatorial", None, ["Epoch(2448972.500685)"], {"tofk5": "False"}),
+    ("JupiterMoons.rectangular_positions_jovian_equatorial", None, ["Epoch(2448972.500685)"], {"do_correction": "False"}),
+    ("JupiterMoons.check_coordinates", None, ["0.3", "-0.2"], {}), ("JupiterMoons.check_coordinates", None, ["1.5", "0.0"], {}),
+    ("JupiterMoons.check_occultation", None, ["-3.450168811390241", "0.21370246960509387", "-4.818966623735296"], {}),
+    ("JupiterMoons.check_occultation", None, ["0.3", "-0.2", "-5.0"], {}),
+    ("JupiterMoons.check_occultation", None, ["0.3", "-0.2", "5.0"], {}),
+    ("JupiterMoons.check_occultation", None, ["-3.45", "0.21", "-4.8", "Epoch(2448972.500685)", "1"], {}),
+    ("JupiterMoons.check_eclipse", None, ["-2.543358080396381", "0.21011856852373847", "-4.8"], {}),
+    ("JupiterMoons.check_eclipse", None, ["0.3", "-0.2", "-5.0"], {}),
+    ("JupiterMoons.check_eclipse", None, ["-2.54", "0.21", "-4.8", "Epoch(2448972.500685)", "1"], {}),
+    ("JupiterMoons.check_phenomena", None, ["Epoch(2448972.500685)"], {"check_all": "False", "i_sat": "2"}),
+    ("JupiterMoons.check_phenomena", None, ["Epoch(2448972.500685)", "True"], {}),
+    ("JupiterMoons.is_phenomena", None, ["Epoch(2451545.0)"], {}),
+    ("JupiterMoons.jupiter_system_angles", None, ["Epoch(2451545.0)"], {}),
+    ("JupiterMoons.calculate_delta", None, ["Epoch(2451545.0)"], {}),
 ] + [("%s.apparent_heliocentric_position" % p, None, [E0], {}) for p in
      ("Mercury", "Venus", "Mars", "Jupiter", "Saturn", "Uranus", "Neptune")] + [
     ("Mercury.magnitude", None, ["0.4", "1.1", "Angle(65.0)"], {}), ("Mercury.magnitude", None, ["0.4", "1.1", "65.0"], {}),
@@ -1311,3 +1333,96 @@ def check_boundary(api, fn, pname, call, shapes):
         out.append(finding("nondeterministic:" + fn.key, "%s gives %s, then %s on equal boundary arguments" % (
             fn.key, describe(o1), describe(o2)), call, call.code() + "; r1 = r; " + call.code() + "; r = (r1, r)"))
     return out, "value"
+
+
+# ====================================================================== sequence-argument variants
+def _top_elems(src_text):
+    """top-level elements of a list/tuple display source, or None"""
+    try:
+        t = _ast.parse(src_text, mode="eval").body
+    except Exception:
+        return None
+    if not isinstance(t, (_ast.List, _ast.Tuple)): return None
+    return [_ast.get_source_segment(src_text, e) for e in t.elts], isinstance(t, _ast.List)
+
+
+def _disp(elems, is_list):
+    if is_list: return "[" + ", ".join(elems) + "]"
+    return "(" + ", ".join(elems) + ("," if len(elems) == 1 else "") + ")"
+
+
+def sequence_variants(api, fn, bases, cap):
+    """variants of documented calls whose arguments are list/tuple displays of >= 3 elements:
+      even/odd : the last entry of EVERY table dropped (tables of the other parity, still consistent)
+      tuple    : every list given as a tuple (where the documentation accepts tuples) / every tuple as a list
+      dup-last / dup-first / dup-max : ONE table with a repeated entry (ill-formed for abscissae)
+    returns list of (kind, Call)"""
+    out, seen = [], set()
+    for base in bases:
+        seqs = {}
+        for v, s in base.setup:
+            if v == "s": continue
+            te = _top_elems(s)
+            if te and len(te[0]) >= 3: seqs[v] = te
+        if not seqs: continue
+
+        def mk(kind, repl):
+            c = Call(base.key, [(v, repl.get(v, s)) for v, s in base.setup], base.call, base.argvars, "seq:" + kind)
+            if c.code() not in seen and c.code() != base.code():
+                seen.add(c.code()); out.append((kind, c))
+        mk("drop-last", {v: _disp(e[:-1], il) for v, (e, il) in seqs.items()})
+        mk("drop-two", {v: _disp(e[:-2], il) for v, (e, il) in seqs.items() if len(e) >= 5})
+        mk("other-sequence-type", {v: _disp(e, not il) for v, (e, il) in seqs.items()})
+        mk("drop-last+other-sequence-type", {v: _disp(e[:-1], not il) for v, (e, il) in seqs.items()})
+        for v, (e, il) in seqs.items():
+            mk("dup-last:" + param_of_var(fn, base, v), {v: _disp(e[:-1] + [e[-2]], il)})
+            mk("dup-first:" + param_of_var(fn, base, v), {v: _disp([e[0], e[0]] + e[2:], il)})
+            mk("dup-unordered:" + param_of_var(fn, base, v), {v: _disp([e[-1]] + e[1:], il)})
+        if len(out) >= cap: break
+    return out[:cap]
+
+
+def check_variant(api, fn, kind, call, base_ok, shapes):
+    """purity and exception class on a sequence variant.  A repeated entry / a shorter table may be out
+    of domain: TypeError/ValueError are then proper answers; the other sequence type is documented as
+    accepted, so it must behave like the documented call"""
+    out = []
+    o1 = run_call(api, call, check_state=False)
+    if o1.setup_exc is not None: return out, "setup"
+    strict = kind == "other-sequence-type" and base_ok
+    res = "value"
+    if o1.exc is not None:
+        cls = type(o1.exc).__name__
+        res = cls
+        if isinstance(o1.exc, (TypeError, ValueError)):
+            res = "rejected"
+            if strict and accepts_both_sequence_types(fn, call):
+                out.append(finding("raises-in-domain:" + fn.key, "%s raises %s (%s) when its documented list arguments are given as tuples (or tuples as lists), both documented as accepted" % (
+                    fn.key, cls, str(o1.exc)[:60]), call))
+        elif not re.search(r":raises?:?\s*%s\b" % cls, fn.doc):
+            out.append(finding("wrong-exception:" + fn.key, "%s raises %s (%s) on a %s variant of a documented call, not TypeError/ValueError" % (
+                fn.key, cls, str(o1.exc)[:60], kind.split(":")[0]), call))
+    for v in o1.pre:
+        if o1.pre[v] != o1.post[v] and not (v == "s" and fn.key in MUTATORS):
+            who = "its receiver" if v == "s" else "argument '%s'" % param_of_var(fn, call, v)
+            out.append(finding("mutates-argument:" + fn.key, "%s (%s variant) changes %s: %s -> %s" % (
+                fn.key, kind.split(":")[0], who, short(o1.pre[v]), short(o1.post[v])), call, call.code() + "; r = %s" % v))
+    if o1.exc is None:
+        why = non_value(o1.result)
+        if why is None and fn.kind == "method" and "s" in o1.env: why = non_value(o1.env["s"])
+        if why:
+            out.append(finding("returns-non-value:%s:%s:%s" % (fn.key, kind.split(":")[-1] if ":" in kind else "tables", non_value_kind(why)),
+                               "%s silently returns %s on a %s variant of a documented call" % (fn.key, why, kind.split(":")[0]), call))
+    o2 = run_call(api, call, check_state=False)
+    if not same_outcome(o1, o2):
+        out.append(finding("nondeterministic:" + fn.key, "%s gives %s, then %s on an equal %s variant" % (
+            fn.key, describe(o1), describe(o2), kind.split(":")[0]), call, call.code() + "; r1 = r; " + call.code() + "; r = (r1, r)"))
+    return out, res
+
+
+def accepts_both_sequence_types(fn, call):
+    for v, s in call.setup:
+        if v == "s" or not s.startswith(("[", "(")): continue
+        ks = kinds_of_doc(fn.types.get(param_of_var(fn, call, v))) or set()
+        if not ({"list", "tuple"} <= ks): return False
+    return True
